@@ -161,4 +161,174 @@ Proof.
     exists w'. auto.
 Qed.
 
+
+(* ---------- what a call can answer: a predicate on the returned value only *)
+Definition rv {A} (P : A -> Prop) (m : Model.M A) : Prop := forall w a w', m w = (Some a, w') -> P a.
+Lemma rv_bind {A B} (P : B -> Prop) (m : Model.M A) (f : A -> Model.M B) : (forall a, rv P (f a)) -> rv P (bind m f).
+Proof. intros H w b w' E. unfold bind in E. destruct (m w) as [[a|] w1]; [eapply H; exact E | discriminate E]. Qed.
+Lemma rv_ret {A} (P : A -> Prop) (a : A) : P a -> rv P (ret a).
+Proof. intros H w b w' E. inversion E; subst. exact H. Qed.
+
+Ltac refuse E := exfalso; unfold ret in E; inversion E; try discriminate; try congruence.
+
+Lemma K_pid_live w i : K w -> in_signallable_states (sts w i) = true -> pid (procs w i) <> 0.
+Proof. intros HK Hs. destruct (k_pi w HK i) as (_ & _ & c & _). apply c. destruct (sts w i); try discriminate Hs; reflexivity. Qed.
+Lemma K_pid_dead w i : K w -> dead_state (sts w i) = true -> pid (procs w i) = 0.
+Proof. intros HK Hs. destruct (k_pi w HK i) as (_ & _ & _ & d). apply d. exact Hs. Qed.
+
+(* C2: signalProcess answering `true` has delivered exactly one signal, the named one, to the pid of the
+   named process's child (r = 0) or found the child gone (r = 1, ESRCH is not an error for signal());
+   nothing else was emitted and no process changed *)
+Theorem signal_delivers_exactly_one_kill w i sig w' :
+  K w -> Model.signal_process U pconfs i sig true w = (Some (CDone 0), w') ->
+  in_signallable_states (sts w i) = true /\ pid (procs w i) <> 0 /\
+  exists r, (r = 0 \/ r = 1) /\ out w' = EKill (pid (procs w i)) sig r :: out w /\
+            forall j, sts w' j = sts w j /\ procs w' j = procs w j.
+Proof.
+  intros HK E. unfold Model.signal_process in E. unfold bind at 1 in E. unfold getw at 1 in E. cbv beta in E.
+  destruct (mood w <? 1); [refuse E|].
+  destruct (Nat.ltb i nprocs); cbn [negb] in E; [|refuse E].
+  unfold bind at 1 in E. unfold gets at 1 in E. cbv beta in E.
+  destruct (in_signallable_states (sts w i)) eqn:Es; cbn [negb] in E; [|refuse E].
+  pose proof (K_pid_live w i HK Es) as Hp.
+  destruct (sx_world i (signal i sig) w (signal_post i sig (sts w i) (procs w i) (out w))) as (b & w1 & E1 & F & HQ).
+  { apply signal_sx; assumption. }
+  unfold bind in E. rewrite E1 in E.
+  split; [reflexivity | split; [exact Hp|]].
+  destruct HQ as [(r & Hr & -> & Hs' & Hp' & Ho) | (-> & _)]; [|refuse E].
+  unfold ret in E. inversion E; subst w1. exists r. split; [exact Hr | split; [exact Ho|]].
+  intros j. destruct (Nat.eq_dec j i) as [-> | Hj]; [auto|]. destruct F as (_ & _ & _ & F). exact (F j Hj).
+Qed.
+
+(* C3: stopProcess(wait=true) answering `true` at once: the process is STOPPED and has no child *)
+Theorem stop_true_means_stopped w i w' :
+  K w -> Model.stop_process U pconfs i true w = (Some (CDone 0), w') ->
+  K w' /\ sts w' i = STOPPED /\ pid (procs w' i) = 0.
+Proof.
+  intros HK E. unfold Model.stop_process, reap_all in E. unfold bind at 1 in E. unfold getw at 1 in E. cbv beta in E.
+  destruct (mood w <? 1); [refuse E|].
+  destruct (Nat.ltb i nprocs); cbn [negb] in E; [|refuse E].
+  unfold bind at 1 in E. unfold gets at 1 in E. cbv beta in E.
+  destruct (in_running_states (sts w i)) eqn:Es; cbn [negb] in E; [|refuse E].
+  assert (Hkill : killable (sts w i) = true) by (destruct (sts w i); try discriminate Es; reflexivity).
+  destruct (stop_ipre U pconfs i (sts w i) Hkill w HK eq_refl) as (b0 & w1' & E0 & K1).
+  unfold bind at 1 in E.
+  destruct (sts w i) eqn:Hs; try discriminate Es.
+  - (* STARTING *)
+    destruct (sx_world i (stop i) w (kill_post U pconfs i (c_stopsignal (cf i)) (sts w i) (p_admin (procs w i) true) (out w) (now w)))
+      as (b & w1 & E1 & F & HQ).
+    { apply stop_sx; [rewrite Hs; reflexivity | apply K_pid_live; [exact HK | rewrite Hs; reflexivity]]. }
+    rewrite E1 in E0. inversion E0; subst b0 w1'. rewrite E1 in E.
+    destruct (kill_post_shape _ _ _ _ _ _ _ _ _ _ _ _ HQ) as (r & Hr & Eb & Es1 & _).
+    destruct (r =? 2); subst b; [refuse E|].
+    destruct (reap_stopping i 100 w1 K1 Es1) as (w2 & E2 & K2 & H2).
+    unfold bind at 1 in E. rewrite E2 in E. unfold bind, gets in E.
+    destruct H2 as [H2 | [H2 H3]]; rewrite H2 in E; cbn in E; [refuse E|].
+    unfold ret in E. inversion E; subst w2. auto.
+  - (* RUNNING *)
+    destruct (sx_world i (stop i) w (kill_post U pconfs i (c_stopsignal (cf i)) (sts w i) (p_admin (procs w i) true) (out w) (now w)))
+      as (b & w1 & E1 & F & HQ).
+    { apply stop_sx; [rewrite Hs; reflexivity | apply K_pid_live; [exact HK | rewrite Hs; reflexivity]]. }
+    rewrite E1 in E0. inversion E0; subst b0 w1'. rewrite E1 in E.
+    destruct (kill_post_shape _ _ _ _ _ _ _ _ _ _ _ _ HQ) as (r & Hr & Eb & Es1 & _).
+    destruct (r =? 2); subst b; [refuse E|].
+    destruct (reap_stopping i 100 w1 K1 Es1) as (w2 & E2 & K2 & H2).
+    unfold bind at 1 in E. rewrite E2 in E. unfold bind, gets in E.
+    destruct H2 as [H2 | [H2 H3]]; rewrite H2 in E; cbn in E; [refuse E|].
+    unfold ret in E. inversion E; subst w2. auto.
+  - (* BACKOFF: the retry is cancelled, STOPPED at once *)
+    destruct (stop_cancels_backoff U pconfs w i Hs) as (w1 & E1 & F & Es1 & Ep1 & _).
+    rewrite E1 in E0. inversion E0; subst b0 w1'. rewrite E1 in E.
+    assert (Hp1 : pid (procs w1 i) = 0).
+    { rewrite Ep1. autorewrite with procdb. apply K_pid_dead; [exact HK | rewrite Hs; reflexivity]. }
+    destruct (reap_untouched i 100 w1 K1 Hp1) as (w2 & E2 & K2 & Es2 & Ep2).
+    unfold bind at 1 in E. rewrite E2 in E. unfold bind, gets in E. rewrite Es2, Es1 in E. cbn in E.
+    unfold ret in E. inversion E; subst w2. split; [exact K2 | split; congruence].
+Qed.
+
+(* ... and the deferred form: the poll callback answers `true` only in a stopped state; the world is not
+   changed; the process has no child unless it is UNKNOWN (a kill that failed with an error other than
+   ESRCH leaves the pid in place) *)
+Theorem stop_onwait_true_means_stopped w i w' :
+  K w -> Model.stop_onwait U pconfs i w = (Some (Some 0), w') ->
+  w' = w /\ in_stopped_states (sts w i) = true /\ (sts w i <> UNKNOWN -> pid (procs w i) = 0).
+Proof.
+  intros HK E. unfold Model.stop_onwait, bind, getw, gets in E.
+  destruct (sts w i) eqn:Hs; cbn in E; try (refuse E; fail).
+  all: unfold ret in E; inversion E; subst w'; split; [reflexivity | split; [reflexivity|]]; intros Hn;
+       try congruence; apply K_pid_dead; [exact HK | rewrite Hs; reflexivity].
+Qed.
+
+(* C1: the answers of startProcess *)
+Definition start_rest (i : nat) (wait : bool) : Model.M callres :=
+  bind (reap 100) (fun _ =>
+  bind (getp i) (fun p =>
+  if spawnerr p then ret (CDone F_SPAWN_ERROR)
+  else bind (transition i) (fun _ => bind (gets i) (fun s =>
+       if wait && negb (pstate_eqb s RUNNING) then ret CDefer else ret (CDone 0))))).
+
+Lemma gr_start_rest o i wait : presG (GR o) (start_rest i wait).
+Proof. unfold start_rest. pose proof gr_reap. grtac. Qed.
+
+Lemma rv_start_rest i wait :
+  rv (fun c => c = CDone F_SPAWN_ERROR \/ c = CDefer \/ c = CDone 0) (start_rest i wait).
+Proof.
+  unfold start_rest. apply rv_bind; intros _. apply rv_bind; intros p.
+  destruct (spawnerr p); [apply rv_ret; auto|]. apply rv_bind; intros _. apply rv_bind; intros s.
+  destruct (wait && negb (pstate_eqb s RUNNING)); apply rv_ret; auto.
+Qed.
+
+(* (a) an answer other than true / deferred / SPAWN_ERROR is a pure refusal *)
+Theorem start_fault_is_pure w i wait code w' :
+  Model.start_process U pconfs i wait w = (Some (CDone code), w') ->
+  code <> 0 -> code <> F_SPAWN_ERROR -> w' = w.
+Proof.
+  intros E H0 H1. unfold Model.start_process, reap_all in E. unfold bind at 1 in E. unfold getw at 1 in E. cbv beta in E.
+  destruct (mood w <? 1); [unfold ret in E; inversion E; reflexivity|].
+  destruct (Nat.ltb i nprocs); cbn [negb] in E; [|unfold ret in E; inversion E; reflexivity].
+  destruct (c_cmd (cf i)); try (unfold ret in E; inversion E; reflexivity).
+  unfold bind at 1 in E. unfold gets at 1 in E. cbv beta in E.
+  destruct (in_running_states (sts w i)); [unfold ret in E; inversion E; reflexivity|].
+  destruct (pstate_eqb (sts w i) UNKNOWN); [unfold ret in E; inversion E; reflexivity|].
+  exfalso. change (bind (spawn i) (fun _ => start_rest i wait) w = (Some (CDone code), w')) in E.
+  unfold bind at 1 in E. destruct (spawn i w) as [[u|] w1]; [|discriminate E].
+  destruct (rv_start_rest i wait _ _ _ E) as [H | [H | H]]; inversion H; congruence.
+Qed.
+
+(* (b) `true` (or a deferred answer) means that this call forked a child for the process, unless the
+   process was STOPPING when the request arrived (the known finding: nothing is started then) *)
+Theorem start_true_implies_fork w i wait c w' :
+  K w -> Model.start_process U pconfs i wait w = (Some c, w') -> c = CDone 0 \/ c = CDefer ->
+  sts w i = STOPPING \/
+  (spawnable_state (sts w i) = true /\
+   exists np l, out w' = l ++ EFork i np :: EState i (sts w i) STARTING (backoff (procs w i)) true :: out w).
+Proof.
+  intros HK E Hc. unfold Model.start_process, reap_all in E. unfold bind at 1 in E. unfold getw at 1 in E. cbv beta in E.
+  assert (Hne : forall code w0, (Some (CDone code), w0) = (Some c, w') -> code <> 0 -> False).
+  { intros code w0 E0 Hn. inversion E0; subst. destruct Hc as [Hc | Hc]; inversion Hc; congruence. }
+  destruct (mood w <? 1); [exfalso; eapply Hne; [exact E | discriminate]|].
+  destruct (Nat.ltb i nprocs); cbn [negb] in E; [|exfalso; eapply Hne; [exact E | discriminate]].
+  destruct (c_cmd (cf i)); try (exfalso; eapply Hne; [exact E | discriminate]).
+  unfold bind at 1 in E. unfold gets at 1 in E. cbv beta in E.
+  destruct (in_running_states (sts w i)) eqn:Er; [exfalso; eapply Hne; [exact E | discriminate]|].
+  destruct (pstate_eqb (sts w i) UNKNOWN) eqn:Eu; [exfalso; eapply Hne; [exact E | discriminate]|].
+  change (bind (spawn i) (fun _ => start_rest i wait) w = (Some c, w')) in E.
+  destruct (sts w i) eqn:Hs; try discriminate Er; try discriminate Eu; [| left; reflexivity | |].
+  all: right; split; [reflexivity|].
+  all: assert (Hp : pid (procs w i) = 0) by (apply K_pid_dead; [exact HK | rewrite Hs; reflexivity]).
+  all: destruct (spawn_ipre U pconfs i (sts w i) ltac:(rewrite Hs; left; reflexivity) w HK eq_refl) as (u0 & w1' & E0 & K1).
+  all: destruct (sx_world i (spawn i) w (spawn_post U pconfs i (sts w i) (procs w i) (out w) (now w)))
+         as (u & w1 & E1 & F & HQ); [apply spawn_sx; [exact Hp | rewrite Hs; reflexivity]|].
+  all: rewrite E1 in E0; inversion E0; subst u0 w1'; unfold bind at 1 in E; rewrite E1 in E.
+  all: destruct HQ as [(np & _ & _ & _ & Eo) | (k & Es1 & Ep1 & _)].
+  all: try (pose proof (gr_start_rest (out w1) i wait w1 (GR_refl w1)) as HG; rewrite E in HG; destruct HG as [l El];
+            exists np, l; cbn [snd] in El; rewrite El, Eo, Hs; reflexivity).
+  all: exfalso.
+  all: assert (Hp1 : pid (procs w1 i) = 0) by (rewrite Ep1; unfold spawn_fail_p, sp1; autorewrite with procdb; exact Hp).
+  all: destruct (reap_untouched i 100 w1 K1 Hp1) as (w2 & E2 & K2 & Es2 & Ep2).
+  all: unfold start_rest in E; unfold bind at 1 in E; rewrite E2 in E; unfold bind at 1 in E; unfold getp at 1 in E;
+       rewrite Ep2, Ep1 in E; unfold spawn_fail_p at 1 in E; autorewrite with procdb in E.
+  all: eapply Hne; [exact E | discriminate].
+Qed.
+
 End WithConfig.
